@@ -401,13 +401,21 @@ def write_replay(pid, name, payload):
 
 
 def load_known_findings():
-    path = os.path.join(VERIF, "known_findings.jsonl")
+    """known_findings.txt: `open: property=Cxx harness=<regex> clause=<text> :: what` lines are
+    reported as KNOWN-FINDING; `fixed:` lines are documentation only and suppress nothing."""
+    path = os.path.join(VERIF, "known_findings.txt")
     out = []
     if os.path.exists(path):
         for l in open(path):
             l = l.strip()
-            if l and not l.startswith("#"):
-                out.append(json.loads(l))
+            if not l or l.startswith("#"):
+                continue
+            m = re.match(r"open: property=(\S+) harness=(\S+) clause=(.*?) :: (.*)$", l)
+            if m:
+                out.append({"status": "open", "property": m.group(1), "harness": m.group(2),
+                            "clause": m.group(3).strip(), "what": m.group(4)})
+            elif l.startswith("fixed:"):
+                out.append({"status": "fixed", "line": l})
     return out
 
 
